@@ -286,9 +286,9 @@ def _rest(e, relaxed=()):
     return {k: v for k, v in e.items() if k not in ("columns", "alter", "index") and k not in relaxed}
 
 
-def _evaluate(ck, set_name, key, sc, mode=None, normalize=False):
+def _evaluate(ck, set_name, key, sc, mode=None, normalize=False, tag=None):
     """run the script, compare every table with the model; normalize: DDLParser(normalize_names=True), every reported identifier
-    loses its one pair of outer delimiters"""
+    loses its one pair of outer delimiters; tag: inserted into the witness class (c04:<tag>:<what differs>)"""
     ddl = sc.text()
     run = {"output_mode": mode} if mode else {}
     ctor = {"normalize_names": True} if normalize else None
@@ -297,7 +297,6 @@ def _evaluate(ck, set_name, key, sc, mode=None, normalize=False):
         info["run"] = run
     if ctor:
         info["ctor"] = ctor
-    known = sorted(sc.defects)
 
     def N(x):
         return _bare(x) if (normalize and x is not None) else x
@@ -305,9 +304,8 @@ def _evaluate(ck, set_name, key, sc, mode=None, normalize=False):
     def fail(cls, **kw):
         d = dict(info)
         d.update(kw)
-        if known:
-            d["detail_class"] = cls
-            cls = known[0]
+        if tag:
+            cls = "c04:%s:%s" % (tag, cls[4:])
         ck.fail(set_name, key, cls, d)
 
     r = parse(ddl, ctor=ctor, **run)
@@ -354,10 +352,16 @@ def _evaluate(ck, set_name, key, sc, mode=None, normalize=False):
             flat = jdump([[x["index_name"], x["unique"], x["columns"], [d[0] for d in x["detailed"]]] for x in oi]) == \
                 jdump([[x["index_name"], x["unique"], x["columns"], [d[0] for d in x["detailed"]]] for x in ei])
             return fail("c04:index-direction" if flat else "c04:index-record", table=tid, observed=oi, expected=ei)
-        if jdump(_rest(e, t.relaxed)) != jdump(_rest(bents[i], t.relaxed)):
-            return fail("c04:table-frame-changed", table=tid, observed=_rest(e, t.relaxed), expected=_rest(bents[i], t.relaxed))
-    for d in known:
-        ck.notes[d + " inputs that met the contract"] = ck.notes.get(d + " inputs that met the contract", 0) + 1
+        orest, erest = _rest(e, t.relaxed), _rest(bents[i], t.relaxed)
+        if isinstance(erest.get("primary_key"), list) and t.pk_renames:
+            # primary_key keeps naming columns of the table: a renamed member is replaced by the new name, in place
+            pk = list(erest["primary_key"])
+            for old, new in t.pk_renames:
+                pk = [N(new) if _norm(k) == old else k for k in pk]
+            erest["primary_key"] = pk
+        if jdump(orest) != jdump(erest):
+            only_pk = jdump(dict(orest, primary_key=None)) == jdump(dict(erest, primary_key=None))
+            return fail("c04:primary-key-after-rename" if only_pk and t.pk_renames else "c04:table-frame-changed", table=tid, observed=orest, expected=erest)
     ck.ok(set_name, key, dict(ddl=ddl[:400], mode=mode))
 
 
@@ -556,7 +560,7 @@ def _set_index(ck):
     for k in range(1, maxc + 1):
         for dirs in itertools.product([None, "ASC", "DESC"], repeat=k):
             cases.append((names[:k], dirs))
-    # direction keyword not in upper case: separate (known) input class
+    # direction keyword not in upper case (repaired by 25def03: ordinary cases)
     for d in ["desc", "asc", "Desc"]:
         cases.append((names[:2], (None, d)))
         cases.append((names[:3], (d, None, "DESC")))
@@ -634,7 +638,7 @@ def _set_readd(ck):
         ["index", "index-unique-directions", "index"],
         [("drop", "id"), "index", ("rename", "code", "c2"), "unique-1"],
         ["add", ("rename", "extra", "extra2"), "add-default"],
-        # known input class: a column named in an earlier ADD is gone when the next ADD arrives
+        # a column named in an earlier ADD is gone when the next ADD arrives (repaired by 7fc4411: ordinary cases)
         ["add", ("drop", "extra"), "add-default"],
         ["add", ("drop", "extra"), ("add", "extra")],
         ["fk-1", ("rename", "id", "ident"), "add"],
@@ -665,6 +669,50 @@ def _set_readd(ck):
     return n
 
 
+def _drop_stub(schema_bare, name_bare, sp):
+    """DROP TABLE <ref>; yields an entity of its own that registers the same (schema, table) identity; it must stay as parsed alone"""
+    d = _Table(schema_bare, name_bare, sp, [])
+    d.create = "DROP TABLE %s;" % ((d.schema + "." if d.schema is not None else "") + d.name)
+    return d
+
+
+def _set_same_id_twice(ck):
+    """one (schema, table) identity registered twice: ALTER / INDEX statements land on the LATEST definition before them,
+    the earlier entity (DROP TABLE t / older CREATE TABLE t) stays as in the script without ALTER / INDEX statements"""
+    n = 0
+    kinds = KINDS if not ck.quick() else ["add", "drop", "rename", "modify", "unique-1", "default-for-n", "fk-n-named", "index-unique-directions", "pkey", "check"]
+    idents = [(None, "t1"), ("shop", "orders"), ("Dbo", "Accounts")]
+    variants = ["drop-then-create", "older-create", "older-create-respelled", "alter-create-alter", "three-definitions"]
+    for (s, nm), variant, kind in itertools.product(idents, variants, kinds):
+        sp = (SPELLINGS[n % 12], SPELLINGS[(n + 7) % 12])
+        cols_old = [("id", 1, 1), ("code", 2, 0), ("legacy", 6, 0)]
+        cols_new = [("id", n % 2, 1), ("code_2", 3, 0), ("code", 2 + n % 3, n % 5), ("note", 6, 0), ("qty", 4, 0)]
+        other = _Table("other" if s is None else None, nm, ((0, 0), (0, 0)), cols_new[:4], layout=1)   # same name, other schema: never targeted
+        decl_new = ((0, 0), (0, 0)) if variant != "older-create-respelled" else ((1, 1), (3, 2))
+        new = _Table(s, nm, decl_new, cols_new, layout=n % 2, pk_clause=n % 3 == 0)
+        if variant == "drop-then-create":
+            first = [_drop_stub(s, nm, ((0, 0), (0, 0))), other]
+        else:
+            first = [_Table(s, nm, ((0, 0), (0, 0)), cols_old, layout=1), other]
+        if n % 2:
+            first.reverse()
+        sc = _Script(first)
+        old = [t for t in first if t is not other][0]
+        if variant == "alter-create-alter" and old.cols:
+            # lands on the older definition: it is the latest one at that point of the script
+            _apply_kind(sc, old, "add", sp, n=n + 1)
+            sc.create_index(old, old.ref(*sp), "ix_old_%d" % n, False, [("code", "DESC")])
+        if variant == "three-definitions":
+            sc.define(_Table(s, nm, ((2, 0), (2, 0)), cols_old[:2], layout=1))
+        sc.define(new)
+        _apply_kind(sc, new, kind, sp, n=n)
+        if n % 3 == 0:
+            _apply_kind(sc, new, "index", ((0, 0), (0, 0)), n=n + 1)
+        _evaluate(ck, "same-id-twice", (s, nm, variant, kind), sc, tag="latest-definition:" + variant)
+        n += 1
+    return n
+
+
 TABLE_NAMES = ["orders", "Order_Items", "users", "acct", "t1", "Accounts", "stock", "Invoices"]
 SCHEMA_NAMES = [None, None, "s1", "shop", "CRM", "dbo", "s2"]
 COL_NAMES = ["id", "code_2", "code", "note", "qty", "price", "email", "flag", "amount", "ref_id", "created_at", "customerId", "Status_", "a1b2", "city",
@@ -691,9 +739,9 @@ def _set_random(ck):
             decl = (rnd.choice(SPELLINGS) if rnd.random() < 0.3 else (0, 0), rnd.choice(SPELLINGS) if rnd.random() < 0.3 else (0, 0))
             names = rnd.sample(COL_NAMES, rnd.randint(2, 9 if not quick else 6))
             cols = [(_spell(c, rnd.choice(SPELLINGS)) if rnd.random() < 0.15 else c, rnd.randrange(len(TYPES)), rnd.randrange(5)) for c in names]
-            tables.append(_Table(s, nm, decl, cols, layout=rnd.randrange(2)))
-        sc = _Script(tables, sep=rnd.choice(["\n", "\n", "\n\n"]))
-        allow_ghost = rnd.random() < 0.08
+            pk = rnd.sample(range(len(cols)), min(len(cols), 3)) if rnd.random() < 0.5 else False
+            tables.append(_Table(s, nm, decl, cols, layout=rnd.randrange(2), pk_clause=pk))
+        sc = _Script(tables, sep=rnd.choice(["\n", "\n", "\n\n"]), lower_kw=rnd.random() < 0.15)
         cn = 0
         for j in range(rnd.randint(1, max_stmts)):
             t = rnd.choice(tables)
@@ -701,9 +749,6 @@ def _set_random(ck):
             ref = t.ref(*sp)
             prefix = rnd.choice(["", "", "", "", "IF EXISTS ", "ONLY "])
             cur = [c["name"] for c in t.cols]
-            # columns whose removal would leave a name recorded by an earlier ADD without a column (known input class)
-            risky = set(_norm(e["name"]) for e in t.added)
-            safe = [c for c in cur if _norm(c) not in risky] if not allow_ghost else cur
             kind = rnd.choice(["add", "add", "add", "drop", "drop", "rename", "modify", "unique", "pkey", "check", "default", "fk", "index", "index"])
             cn += 1
             if kind == "add":
@@ -716,14 +761,12 @@ def _set_random(ck):
                     nm = rnd.choice(fresh)
                 sc.add(t, ref, nm, rnd.randrange(len(TYPES)), rnd.randrange(4), prefix)
             elif kind == "drop":
-                if len(cur) < 2 or not safe:
+                if len(cur) < 2:
                     continue
-                c = rnd.choice(safe)
+                c = rnd.choice(cur)
                 sc.drop(t, ref, _spell(_bare(c), rnd.choice(SPELLINGS)) if rnd.random() < 0.5 else c, prefix)
             elif kind == "rename":
-                if not safe:
-                    continue
-                c = rnd.choice(safe)
+                c = rnd.choice(cur)
                 fresh = [x for x in FRESH + COL_NAMES if _norm(x) not in t.names()]
                 sc.rename(t, ref, _spell(_bare(c), rnd.choice(SPELLINGS)) if rnd.random() < 0.5 else c, rnd.choice(fresh), prefix)
             elif kind == "modify":
@@ -743,8 +786,6 @@ def _set_random(ck):
                 cols = rnd.sample(cur, min(len(cur), rnd.choice([1, 1, 2, 3])))
                 sc.default(t, ref, cname, v, cols, rnd.random() < 0.3, prefix)
             elif kind == "fk":
-                if not safe and not allow_ghost:
-                    continue
                 k = min(len(cur), rnd.choice([1, 1, 2, 3]))
                 cols = rnd.sample(cur, k)
                 sc.fkey(t, ref, rnd.choice([None, "fk_%d" % cn]), cols, rnd.choice([None, "ref", '"Ref"']), rnd.choice(["parents", "Targets", "`p`"]),
@@ -752,7 +793,7 @@ def _set_random(ck):
                         update_first=rnd.random() < 0.5, prefix=prefix)
             else:
                 k = min(len(cur), rnd.choice([1, 2, 3, 4]))
-                cols = [(c, rnd.choice([None, None, "ASC", "DESC"])) for c in rnd.sample(cur, k)]
+                cols = [(c, rnd.choice([None, None, "ASC", "DESC", "DESC", "desc", "Asc"])) for c in rnd.sample(cur, k)]
                 sc.create_index(t, ref, rnd.choice(["ix_%d", "IX_%d", "idx%d_a"]) % cn, rnd.random() < 0.4, cols, tight=rnd.random() < 0.2)
         if not sc.stmts:
             continue
@@ -778,17 +819,19 @@ def check(ck):
     n_index = _set_index(ck)
     n_spell = _set_column_spelling(ck)
     n_dir = _set_readd(ck)
+    n_twice = _set_same_id_twice(ck)
     n_rand = _set_random(ck)
     rule = ("scripts generated from an abstract description: 1..4 CREATE TABLEs (same name in several schemas, with and without schema, prefix-related names, "
             "4 quoting styles) followed by ALTER TABLE (ADD column, DROP / RENAME / MODIFY / ALTER COLUMN, ADD [CONSTRAINT] UNIQUE / PRIMARY KEY / CHECK / "
             "DEFAULT..FOR / FOREIGN KEY) and CREATE [UNIQUE] INDEX statements whose target is spelled in any of 4 quotings x 3 letter cases; contract: the final "
             "column list (name, type, size, nullable, default, unique, in order), the alter section (uniques, primary_keys, checks, defaults, foreign-key "
             "records) and the index list (name, unique, ordered columns with direction) of every table equal the state computed by a model of the statement; "
-            "tables never targeted equal the result of the script without ALTER / INDEX statements; all other keys of a targeted table are unchanged; "
+            "tables never targeted equal the result of the script without ALTER / INDEX statements; all other keys of a targeted table are unchanged "
+            "(primary_key follows RENAME COLUMN); when an identity is registered twice the statements land on the latest definition before them; "
             "a statement whose target is not defined in the script raises")
     bound = ("routing-matrix: %d (6 table shapes x every target x %d statement kinds x %s spellings); undefined-target: %d; index-directions: %d (1..%d columns x "
-             "{none, ASC, DESC}^k + lower-case keywords); column-spelling: %d (5 declared x 12 referenced spellings x 5 kinds x 4 positions%s); directed-sequences: %d; "
+             "{none, ASC, DESC}^k + lower-case keywords); column-spelling: %d (5 declared x 12 referenced spellings x 5 kinds x 4 positions%s); directed-sequences: %d; same-id-twice: %d (3 identities x 5 ways of registering the identity twice x statement kinds); "
              "random-sequences: %d scripts of 1-%d tables x 1-%d statements, %s"
              % (n_route, len(KINDS), "2" if ck.quick() else "12 + 4 mixed", n_undef, n_index, 3 if ck.quick() else 4, n_spell, ", sampled" if ck.quick() else "",
-                n_dir, n_rand, 3 if ck.quick() else 4, 8 if ck.quick() else 14, ("every 5th in one of the 15 output modes" if ck.quick() else "2 of 3 in one of the 15 output modes") + ", every 6th with normalize_names=True"))
+                n_dir, n_twice, n_rand, 3 if ck.quick() else 4, 8 if ck.quick() else 14, ("every 5th in one of the 15 output modes" if ck.quick() else "2 of 3 in one of the 15 output modes") + ", every 6th with normalize_names=True"))
     return rule, bound
